@@ -250,6 +250,13 @@ def _mk():
     add("einsum_sum", "{m}.einsum('ij,ij->i', {0}, {0})", exact=False, cond="a0.ndim==2", fam="linalg", rewrite=False)
     add("einsum_all", "{m}.einsum('ij,ij->', {0}, {0})", exact=False, cond="a0.ndim==2", fam="linalg", rewrite=False)
     add("einsum_mm_all", "{m}.einsum('ij,kj->', {0}, {0})", exact=False, cond="a0.ndim==2", fam="linalg", rewrite=False)
+    # nodes whose generic graph carries inline subtasks
+    add("median0", "{m}.median({0}, axis=0)", exact=False, cond="a0.ndim>=1 and a0.shape[0]>=1 and a0.dtype.kind=='f'", fam="routine", rewrite=False)
+    add("mb_dropaxis_sum", "{m}.map_blocks(uf.sum0, {0}, drop_axis=0, dtype={0}.dtype)", "{0}.sum(axis=0)", exact=False, cond="a0.ndim==2 and a0.dtype.kind=='f'", fam="routine", rewrite=False)
+    add("bw_concat_sum", "{m}.blockwise(uf.sum_last, tuple(range({0}.ndim - 1)), {0}, tuple(range({0}.ndim)), concatenate=True, dtype={0}.dtype)", "{0}.sum(axis=-1)", exact=False, cond="a0.ndim>=1 and a0.dtype.kind=='f'", fam="routine", rewrite=False)
+    add("apply_along0", "{m}.apply_along_axis(uf.ptp1, 0, {0}, dtype={0}.dtype, shape=())", "np.apply_along_axis(uf.ptp1, 0, {0})", exact=False, cond="a0.ndim>=1 and a0.shape[0]>=1 and a0.dtype.kind=='f'", fam="routine", rewrite=False)
+    add("plus_ones_same", "{0} + {m}.ones({0}.shape, chunks={0}.chunks)", "{0} + {m}.ones({0}.shape)", cond="a0.ndim>=1 and a0.dtype.kind in 'fi'", fam="elem", rewrite=False)
+    add("mul_full_same", "{0} * {m}.full({0}.shape, 2.0, chunks={0}.chunks)", "{0} * {m}.full({0}.shape, 2.0)", cond="a0.ndim>=1 and a0.dtype.kind=='f'", fam="elem", rewrite=False)
     add("diagonal", "{m}.diagonal({0})", cond="a0.ndim==2", fam="routine", rewrite=False)
     add("diagonal_off1", "{m}.diagonal({0}, offset=1)", cond="a0.ndim==2 and a0.shape[1]>=2", fam="routine", rewrite=False)
     add("trace", "{m}.trace({0})", cond="a0.ndim==2", exact=False, fam="routine", rewrite=False)
